@@ -97,7 +97,7 @@ def limit_mem():
         pass
 
 
-def kani_cmd(slot, harnesses, jobs, timeout_s, playback=False):
+def kani_cmd(slot, harnesses, jobs, timeout_s, playback=False, unwind=None):
     cmd = ["cargo", "kani", "--target-dir", slot.path, "-Z", "stubbing", "-Z", "unstable-options",
            "--no-assertion-reach-checks", "--output-format", "terse", "--exact",
            "--harness-timeout", f"{int(timeout_s)}s"]
@@ -295,55 +295,92 @@ def run_property(pid, tier, seed, only, jobs):
             if d is None:
                 d = {"status": "error", "raw": ["no result block in kani output"]}
             results[e["name"]] = d
-        # models for failing harnesses
+        # an unwinding assertion failed: the code under test has a loop that needs more iterations than the harness
+        # bound (typical for a change that replaces straight-line code by a table-driven loop).  Retry that harness
+        # once with a much larger bound before giving up; the unwinding assertion stays on.
         for e in ents:
             d = results[e["name"]]
-            if d["status"] != "fail":
-                continue
+            if d["status"] == "fail" and d.get("unwind_fail") and len(d["failed_checks"]) == 1:
+                big = max(64, 2 * int(e.get("unwind", 0)))
+                rc = kani_cmd(slot, [full[e["name"]]], 1, tmo) + ["--unwind", str(big)]
+                rr = subprocess.run(rc, cwd=HARNESS, env=env, stdout=subprocess.PIPE, stderr=subprocess.STDOUT,
+                                    text=True, preexec_fn=limit_mem)
+                open(os.path.join(OUT, pid, f"retry_unwind_{e['name']}.log"), "w").write(rr.stdout)
+                d2 = parse_kani(rr.stdout, full).get(full[e["name"]])
+                if d2 is not None and d2["status"] in ("pass", "fail", "vacuous"):
+                    d2["unwind_retry"] = big
+                    results[e["name"]] = d2
+        # models for failing harnesses: cheapest first; each model is replayed natively straight away.  Once a
+        # violation has been reproduced the remaining failing harnesses are not re-run for their models
+        # (set VERIF_ALL_MODELS=1 to extract every model) - the verdict is already exit 1.
+        findings, _fixed = load_known()
+        all_models = os.environ.get("VERIF_ALL_MODELS") == "1"
+        failing = sorted([e for e in ents if results[e["name"]]["status"] == "fail"],
+                         key=lambda e: results[e["name"]].get("time_s") or 1e9)
+        for e in failing:
+            d = results[e["name"]]
             if d.get("unwind_fail") and len(d["failed_checks"]) == 1:
                 d["status"] = "unwind"
                 continue
+            if violations and not all_models:
+                d["model_skipped"] = True
+                continue
             pc = kani_cmd(slot, [full[e["name"]]], 1, tmo * 2, playback=True)
+            if d.get("unwind_retry"):
+                pc += ["--unwind", str(d["unwind_retry"])]
             pr = subprocess.run(pc, cwd=HARNESS, env=env, stdout=subprocess.PIPE, stderr=subprocess.STDOUT,
                                 text=True, preexec_fn=limit_mem)
             open(os.path.join(OUT, pid, f"playback_{e['name']}.log"), "w").write(pr.stdout)
             ms = [m for m in parse_playback(pr.stdout) if m["kind"] != "cover"]
             playback_models[e["name"]] = ms
-    findings, _fixed = load_known()
+            reproduced = False
+            for m in ms:
+                nat = native_replay(e["name"], m["values"])
+                m["native"] = nat
+                if any(n["violates"] for n in nat):
+                    reproduced = True
+                    case = {"property": pid, "harness": e["name"], "kani_harness": full[e["name"]],
+                            "failed_check": m["desc"], "check_kind": m["kind"], "values": m["values"],
+                            "draw_order": e.get("draws", ""), "native": nat, "repo": rev, "repo_state": dirty}
+                    path = os.path.join(OUT, pid, f"{e['name']}.{len(violations) + len(known_hits)}.case.json")
+                    json.dump(case, open(path, "w"), indent=1)
+                    k = match_known(findings, pid, e["name"], m["desc"])
+                    if k:
+                        known_hits.append((k, path))
+                    else:
+                        violations.append((e["name"], m["desc"], path, nat))
+            if not reproduced:
+                inconclusive.append((e["name"], "model-not-reproduced",
+                                     "solver reported failed checks %r but no model reproduced natively (models: %d)\n%s"
+                                     % (d.get("failed_checks"), len(ms),
+                                        "\n".join("    " + n["line"] for m in ms for n in m.get("native", [])))))
     for e in ents:
         d = results[e["name"]]
-        st = d["status"]
-        if st == "pass":
-            continue
-        if st != "fail":
-            inconclusive.append((e["name"], st, "\n".join(d.get("raw", [])[-12:])))
-            continue
-        ms = playback_models.get(e["name"], [])
-        reproduced = False
-        for m in ms:
-            nat = native_replay(e["name"], m["values"])
-            m["native"] = nat
-            if any(n["violates"] for n in nat):
-                reproduced = True
-                case = {"property": pid, "harness": e["name"], "kani_harness": full[e["name"]],
-                        "failed_check": m["desc"], "check_kind": m["kind"], "values": m["values"],
-                        "draw_order": e.get("draws", ""), "native": nat, "repo": rev, "repo_state": dirty}
-                path = os.path.join(OUT, pid, f"{e['name']}.{len(violations) + len(known_hits)}.case.json")
-                json.dump(case, open(path, "w"), indent=1)
-                k = match_known(findings, pid, e["name"], m["desc"])
-                if k:
-                    known_hits.append((k, path))
-                else:
-                    violations.append((e["name"], m["desc"], path, nat))
-        if not reproduced:
-            inconclusive.append((e["name"], "model-not-reproduced",
-                                 "solver reported failed checks %r but no model reproduced natively (models: %d)\n%s"
-                                 % (d.get("failed_checks"), len(ms),
-                                    "\n".join("    " + n["line"] for m in ms for n in m.get("native", [])))))
+        if d["status"] not in ("pass", "fail"):
+            # The solver did not conclude (timeout / out of memory / error).  For the abstracted six/seven-card
+            # harnesses a native concretisation family exists (c02::concrete): evaluate it on the real build.  A hand
+            # that violates the clause there is a real violation and is reported as such (flagged as found natively
+            # after an inconclusive solver run); if the family holds the harness stays inconclusive.
+            fb = e.get("fallback")
+            if fb and not violations:
+                nat = native_replay(e["name"], fb)
+                if any(n["violates"] for n in nat):
+                    case = {"property": pid, "harness": e["name"], "kani_harness": full[e["name"]],
+                            "failed_check": "native concretisation family (solver run was inconclusive: %s)" % d["status"],
+                            "check_kind": "native-family", "values": fb, "draw_order": e.get("draws", ""), "native": nat,
+                            "repo": rev, "repo_state": dirty}
+                    path = os.path.join(OUT, pid, f"{e['name']}.{len(violations) + len(known_hits)}.case.json")
+                    json.dump(case, open(path, "w"), indent=1)
+                    d["decided_by"] = "native family after inconclusive solver run"
+                    violations.append((e["name"], case["failed_check"], path, nat))
+                    continue
+            inconclusive.append((e["name"], d["status"], "\n".join(d.get("raw", [])[-12:])))
     write_evidence(pid, tier, seed, ents, results, t0, len(violations), meta, rev, dirty,
                    kani_wall=kani_wall, models=playback_models)
     for e in ents:
         d = results[e["name"]]
+        if d.get("model_skipped"):
+            d["status"] = "fail*"
         log(f"  {e['name']:36s} {d['status']:8s} props={d.get('props','-')} failed={d.get('failed','-')} "
             f"covers={d.get('cov_sat','-')}/{d.get('cov_total','-')} t={d.get('time_s')}")
     for k, path in known_hits:
@@ -353,6 +390,8 @@ def run_property(pid, tier, seed, only, jobs):
         for n in nat:
             log(f"    {n['line']}")
         log(f"VIOLATION property={pid} replay={path}")
+    if any(results[e["name"]].get("model_skipped") for e in ents):
+        log("  (fail* = the solver refuted an assertion there too; its model was not extracted because a violation was already reproduced)")
     if violations:
         return 1
     if inconclusive:
@@ -373,7 +412,7 @@ def write_evidence(pid, tier, seed, ents, results, t0, nviol, meta, rev, dirty, 
         props = d.get("props", 0) or 0
         failed = d.get("failed", 0) or 0
         obligations += props
-        if d.get("status") in ("pass", "fail", "vacuous"):
+        if d.get("status") in ("pass", "fail", "fail*", "vacuous"):
             discharged += props - failed
         covers += d.get("cov_sat", 0) or 0
         solver_s += d.get("time_s") or 0.0
@@ -382,6 +421,8 @@ def write_evidence(pid, tier, seed, ents, results, t0, nviol, meta, rev, dirty, 
              "stubs_and_assumptions": e.get("assume", []), "cbmc_properties": props, "cbmc_failed": failed,
              "vacuity_witnesses_satisfied": f"{d.get('cov_sat', 0)}/{d.get('cov_total', 0)}",
              "solver": e.get("solver", "cadical"), "verification_time_s": d.get("time_s"), "draw_order": e.get("draws", "")}
+        if d.get("decided_by"):
+            s["decided_by"] = d["decided_by"]
         if models and e["name"] in models:
             s["models"] = [{"failed_check": m["desc"], "values": m["values"],
                             "native": [n["line"] for n in m.get("native", [])]} for m in models[e["name"]]]
